@@ -71,7 +71,10 @@ OT_Thunks ==
      << Th("M", "a"), Th("M", "o") >>,
      << Th("M", "b"), Th("M", "l"), Th("O", "x") >>,
      << Th("O", "x"), Th("O", "z") >>,
-     << Th("M", "a"), Th("M", "b"), Th("O", "y") >> >>
+     << Th("M", "a"), Th("M", "b"), Th("O", "y") >>,
+     \* a list whose items are deferred, with deferred fields below them
+     << [t |-> "M", f |-> "l", src |-> "*", o |-> [k |-> "titems"]], Th("O", "x"), Th("O", "y") >>,
+     << [t |-> "M", f |-> "l", src |-> "*", o |-> [k |-> "titems"]], Th("M", "a"), Th("O", "z"), Th("O", "x") >> >>
 
 \* F20: lists, lists of lists, abstract lists, merged occurrences, arguments (C20)
 F20_Leafs(t) == CASE t = "Q" -> { SelA("", "f", <<[n |-> "y", v |-> IntV("2")]>>),
